@@ -54,7 +54,7 @@ COMPONENTS = {
              "chosen by the tape)"],
 }
 DEFAULTS = {
-    "quick": {"budget_s": 45, "chunk": 10, "per_run_wall": 300, "minimise_s": 90},
+    "quick": {"budget_s": 45, "chunk": 4, "per_run_wall": 300, "minimise_s": 90},
     "thorough": {"budget_s": 900, "chunk": 30, "per_run_wall": 300,
                  "minimise_s": 300},
 }
